@@ -299,6 +299,25 @@ def gen_history(rng, cfg=None):
     if twins and rng.random() < 0.6:
         rnd = rng.choice(rounds)
         rnd['edits'] = list(rnd['edits']) + [{'m': 'delete', 'p': rng.choice(twins)}]
+    if manifests and rng.random() < cfg.get('p_variant_sibling', 0.1):
+        # an ordinary data file whose name is a sub-Manifest's name plus a compression suffix that no round of this
+        # history uses (so that no save ever wants that name): it is nobody's Manifest and must stay where it is
+        used = set(['gz'])
+        for r_ in rounds:
+            if r_['update'].get('format'):
+                used.add(r_['update']['format'])
+        free = [s_ for s_ in ('bz2', 'lzma', 'xz') if s_ not in used]
+        subs_ = [m['p'] for m in manifests if os.path.dirname(m['p']) and os.path.basename(m['p']) == 'Manifest']
+        if free and subs_:
+            junk = rng.choice(subs_) + '.' + rng.choice(free)
+            if junk not in [m['p'] for m in manifests] and not any(t['p'] == junk for t in tree):
+                tree = tree + [{'p': junk, 'k': 'file', 'c': 'not a compressed stream, just a data file\n'}]
+                if rng.random() < 0.6:
+                    # ... and some round re-compresses the Manifest beside it
+                    u_ = rng.choice(rounds)['update']
+                    if not u_.get('reuse') and 'wm_of' not in u_:
+                        u_['watermark'] = rng.choice([0, 1, 40])
+                        u_['force'] = True
     return {'order_key': '%016x' % rng.getrandbits(64), 'top': 'Manifest', 'tree': tree,
             'chunks': rng.choice([None, None, None, 'mixed', 'tiny', 4096]),
             'manifests': manifests, 'rounds': rounds}
